@@ -10,6 +10,7 @@ package main
 import (
 	"fmt"
 	"go/token"
+	"go/types"
 	"sort"
 	"strings"
 
@@ -220,4 +221,253 @@ func (e *engine) posOf(p token.Pos) string {
 	}
 	ps := e.w.fset.Position(p)
 	return fmt.Sprintf("%s:%d", strings.TrimPrefix(ps.Filename, e.w.repo+"/"), ps.Line)
+}
+
+// ---- C13: access discipline obligations, decided on the SSA of every module function --------------------------
+//
+// module/atomic/<struct>.<field>: a field that is the operand of a sync/atomic operation somewhere in the module is
+// accessed through sync/atomic everywhere - except by stores into an object the storing function has just allocated,
+// and by the functions named after `atomicinit` in the contract files (which run before any goroutine is started).
+//
+// module/moved/<func>@<callee>#n: a value handed to a new goroutine (an argument of a `go` statement, or the receiver
+// of a function declared `moves` in the contract files) is not used again by the function that handed it over, on
+// any path after the hand-over.
+
+type fieldKey struct {
+	typ   string
+	field int
+	name  string
+}
+
+func fieldOfAddr(v ssa.Value) (fieldKey, bool) {
+	fa, ok := v.(*ssa.FieldAddr)
+	if !ok {
+		return fieldKey{}, false
+	}
+	pt, ok := fa.X.Type().Underlying().(interface{ Elem() types.Type })
+	if !ok {
+		return fieldKey{}, false
+	}
+	st, ok := pt.Elem().Underlying().(*types.Struct)
+	if !ok {
+		return fieldKey{}, false
+	}
+	return fieldKey{pt.Elem().String(), fa.Field, st.Field(fa.Field).Name()}, true
+}
+
+func (e *engine) moduleFunctions() []*ssa.Function {
+	var fns []*ssa.Function
+	seenF := map[*ssa.Function]bool{}
+	var addFn func(f *ssa.Function)
+	addFn = func(f *ssa.Function) {
+		if f == nil || seenF[f] || f.Blocks == nil {
+			return
+		}
+		seenF[f] = true
+		fns = append(fns, f)
+		for _, a := range f.AnonFuncs {
+			addFn(a)
+		}
+	}
+	for _, n := range sortedKeys(e.w.funcs) {
+		addFn(e.w.funcs[n])
+	}
+	return fns
+}
+
+func isLocalAlloc(v ssa.Value) bool {
+	for i := 0; i < 10 && v != nil; i++ {
+		switch x := v.(type) {
+		case *ssa.Alloc:
+			return true
+		case *ssa.FieldAddr:
+			v = x.X
+		case *ssa.IndexAddr:
+			v = x.X
+		default:
+			return false
+		}
+	}
+	return false
+}
+
+func (e *engine) atomicObls(prop string) []*obligation {
+	fns := e.moduleFunctions()
+	atomicFields := map[fieldKey][]string{}
+	for _, fn := range fns {
+		for _, b := range fn.Blocks {
+			for _, ins := range b.Instrs {
+				ci, ok := ins.(ssa.CallInstruction)
+				if !ok {
+					continue
+				}
+				f := ci.Common().StaticCallee()
+				if f == nil || f.Pkg == nil || f.Pkg.Pkg.Path() != "sync/atomic" {
+					continue
+				}
+				for _, a := range ci.Common().Args {
+					if fk, ok := fieldOfAddr(a); ok {
+						atomicFields[fk] = append(atomicFields[fk], e.posOf(ins.Pos()))
+					}
+				}
+			}
+		}
+	}
+	var keys []fieldKey
+	for k := range atomicFields {
+		keys = append(keys, k)
+	}
+	sort.Slice(keys, func(i, j int) bool { return keys[i].typ+keys[i].name < keys[j].typ+keys[j].name })
+	var out []*obligation
+	for _, fk := range keys {
+		o := &obligation{Func: "module", Name: "module/atomic/" + fk.typ + "." + fk.name, Kind: "frame", Label: prop + ".atomic", Props: []string{prop},
+			Clause: "the field " + fk.typ + "." + fk.name + " (operand of sync/atomic at " + strings.Join(atomicFields[fk], ", ") + ") is read and written through sync/atomic only, except in functions that run before any goroutine is started"}
+		var bad []string
+		for _, fn := range fns {
+			if e.w.db.AtomicInit[fn.String()] {
+				continue
+			}
+			for _, b := range fn.Blocks {
+				for _, ins := range b.Instrs {
+					var addr ssa.Value
+					what := ""
+					switch x := ins.(type) {
+					case *ssa.UnOp:
+						if x.Op == token.MUL {
+							addr, what = x.X, "plain read"
+						}
+					case *ssa.Store:
+						addr, what = x.Addr, "plain write"
+					}
+					if addr == nil {
+						continue
+					}
+					k2, ok := fieldOfAddr(addr)
+					if !ok || k2 != fk {
+						continue
+					}
+					if what == "plain write" && isLocalAlloc(addr) {
+						continue // initialising a freshly allocated object
+					}
+					bad = append(bad, what+" in "+fn.String()+" at "+e.posOf(ins.Pos()))
+				}
+			}
+		}
+		if len(bad) == 0 {
+			o.Status, o.Solver, o.Output = "discharged", "static access scan", "static access scan: every access is a sync/atomic call"
+		} else {
+			sort.Strings(bad)
+			o.Status, o.Output = "refuted", "static access scan: "+strings.Join(bad, "; ")
+		}
+		out = append(out, o)
+	}
+	return out
+}
+
+// movedObls: no use of a value after it was handed to a new goroutine.
+func (e *engine) movedObls(prop string) []*obligation {
+	var out []*obligation
+	for _, fn := range e.moduleFunctions() {
+		n := 0
+		for _, b := range fn.Blocks {
+			for idx, ins := range b.Instrs {
+				var moved []ssa.Value
+				callee := ""
+				switch x := ins.(type) {
+				case *ssa.Go:
+					cc := x.Common()
+					moved = append(moved, cc.Args...)
+					if cc.IsInvoke() {
+						moved = append(moved, cc.Value)
+					}
+					callee = "go " + callName(cc)
+				case *ssa.Call:
+					if f := x.Common().StaticCallee(); f != nil && e.w.db.Moves[f.String()] && len(x.Common().Args) > 0 {
+						moved = append(moved, x.Common().Args[0])
+						callee = f.String()
+					}
+				}
+				if callee == "" {
+					continue
+				}
+				n++
+				var tracked []ssa.Value
+				for _, m := range moved {
+					// only heap references to mutable structures matter; the runtime environment is shared by design
+					pt, isPtr := m.Type().Underlying().(*types.Pointer)
+					if !isPtr || !e.w.db.Owned[pt.Elem().String()] {
+						continue // only values of the types declared `owned` (one goroutine at a time) are tracked
+					}
+					if _, isParam := m.(*ssa.Parameter); isParam && fn.Signature.Recv() != nil && len(fn.Params) > 0 && m == fn.Params[0] && callee[:2] == "go" {
+						continue // a method starting a goroutine on its own receiver: the hand-over is its caller's business
+					}
+					tracked = append(tracked, m)
+				}
+				if len(tracked) == 0 {
+					continue
+				}
+				o := &obligation{Func: fn.String(), Name: fmt.Sprintf("module/moved/%s@%s#%d", fn.String(), callee, n), Kind: "frame", Label: prop + ".moved", Props: []string{prop},
+					Pos: e.posOf(ins.Pos()), Clause: "a value handed to a new goroutine is not used again by the function that handed it over"}
+				var bad []string
+				// instructions after the hand-over: the rest of this block and every block reachable from it
+				seen := map[*ssa.BasicBlock]bool{}
+				var later []ssa.Instruction
+				later = append(later, b.Instrs[idx+1:]...)
+				// a path that runs through the definition of the value again carries a new value from there on
+				defBlocks := map[*ssa.BasicBlock]bool{}
+				for _, t := range tracked {
+					if di, ok := t.(ssa.Instruction); ok && di.Block() != nil {
+						defBlocks[di.Block()] = true
+					}
+				}
+				if defBlocks[b] {
+					// the hand-over sits in the defining block: a path that comes back to this block starts a new value
+					seen[b] = true
+				}
+				var walk func(bb *ssa.BasicBlock)
+				walk = func(bb *ssa.BasicBlock) {
+					if seen[bb] || defBlocks[bb] {
+						return
+					}
+					seen[bb] = true
+					later = append(later, bb.Instrs...)
+					for _, s := range bb.Succs {
+						walk(s)
+					}
+				}
+				for _, s := range b.Succs {
+					walk(s)
+				}
+				for _, li := range later {
+					if li == ins {
+						continue // the hand-over itself, reached again around a loop with a new value
+					}
+					for _, op := range li.Operands(nil) {
+						if op == nil || *op == nil {
+							continue
+						}
+						for _, t := range tracked {
+							if *op == t {
+								if _, isPhi := li.(*ssa.Phi); isPhi {
+									continue
+								}
+								if _, isDbg := li.(*ssa.DebugRef); isDbg {
+									continue
+								}
+								bad = append(bad, fmt.Sprintf("used again at %s (%s)", e.posOf(li.Pos()), li.String()))
+							}
+						}
+					}
+				}
+				if len(bad) == 0 {
+					o.Status, o.Solver, o.Output = "discharged", "static use-after-hand-over scan", "static scan: no later use"
+				} else {
+					sort.Strings(bad)
+					o.Status, o.Output = "refuted", "static scan: "+strings.Join(bad, "; ")
+				}
+				out = append(out, o)
+			}
+		}
+	}
+	return out
 }
